@@ -343,6 +343,11 @@ func (c *checkCtx) runContracts(cov map[string]interface{}) int {
 		}
 		skippedNames := map[string]bool{}
 		for _, o := range rep.Obligations {
+			if len(rep.Unsupported) > 0 && (o.Kind == "canary" || o.Kind == "cover" || o.Kind == "reach") {
+				// the exploration of this function stopped early (engine:unsupported is reported for it): that some
+				// return was not reached says nothing
+				continue
+			}
 			skip := false
 			for _, r := range skipRe {
 				if r.MatchString(o.Name) {
